@@ -265,7 +265,7 @@ def tlc(spec, cfg=None, workers=None, timeout=600, env=None, simulate=None, dept
     os.makedirs(meta, exist_ok=True)
     if workers is None:
         workers = NCPU
-    cmd = ["java", "-XX:+UseParallelGC", "-Xmx" + xmx]
+    cmd = ["java", "-XX:+UseParallelGC", "-Xmx" + xmx, "-XX:MaxDirectMemorySize=" + xmx]  # (TLC's off-heap fingerprint set would otherwise take 25% of the RAM)
     if xss:
         cmd.append("-Xss" + xss)
     if dfs:
